@@ -9,4 +9,5 @@ CONSTANTS
   Emit = TRUE
   EmitMod = 11
 INVARIANT DenotationTotal
+INVARIANT StartsAgree
 CONSTRAINT EmitScn
